@@ -71,7 +71,14 @@ static int cur_tid(void) { return zv_self(); }
 #else
 static __thread int tl_worker = 1; static int cur_tid(void) { return tl_worker; }
 #endif
-static void* c11_alloc(void* o, size_t n) { (void)o; if (cur_tid() != 0 && g_fail_at >= 0) { if (g_wallocs++ == g_fail_at) { g_fail_at = -1; printf("FAULT %d\n", cur_tid()); return NULL; } } return malloc(n); }
+static void* c11_alloc(void* o, size_t n) {
+    (void)o;
+    if (cur_tid() != 0 && __atomic_load_n(&g_fail_at, __ATOMIC_SEQ_CST) >= 0) {
+        long const k = __atomic_fetch_add(&g_wallocs, 1, __ATOMIC_SEQ_CST);
+        if (k == __atomic_load_n(&g_fail_at, __ATOMIC_SEQ_CST)) { __atomic_store_n(&g_fail_at, -1, __ATOMIC_SEQ_CST); printf("FAULT %d\n", cur_tid()); return NULL; }
+    }
+    return malloc(n);
+}
 static void c11_free(void* o, void* p) { (void)o; free(p); }
 
 /* ---------- input generator ---------- */
@@ -375,7 +382,7 @@ static void run_prog(void) {
         case 'F': guard = 0; do { r = one_call(ZSTD_e_flush, 0, (size_t)o->a); } while (!ZSTD_isError(r) && r != 0 && ++guard < 100000); break;
         case 'R': printf("OP reset\n"); ZSTD_CCtx_reset(g_cctx, ZSTD_reset_session_only); if (g_frame_open) { g_frame_open = 0; g_outpos = g_fout_off; } break;
         case 'L': printf("OP level %ld\n", o->a); { size_t const e = ZSTD_CCtx_setParameter(g_cctx, ZSTD_c_compressionLevel, (int)o->a); if (ZSTD_isError(e)) oracle("setParameter(compressionLevel) refused mid-frame"); } break;
-        case 'X': printf("OP fault %ld\n", o->a); g_wallocs = 0; g_fail_at = o->a; break;
+        case 'X': printf("OP fault %ld\n", o->a); __atomic_store_n(&g_wallocs, 0, __ATOMIC_SEQ_CST); __atomic_store_n(&g_fail_at, o->a, __ATOMIC_SEQ_CST); break;
         case 'W': printf("OP workers %ld\n", o->a); ZSTD_CCtx_setParameter(g_cctx, ZSTD_c_nbWorkers, (int)o->a); break;
         default: break;
         }
